@@ -153,6 +153,9 @@ func runC09(c *kit.Ctx) {
 	}
 
 	// ---- R2 ---------------------------------------------------------------
+	lockPairing(c, "/gohbase")
+	lockPairing(c, "/gohbase/region")
+
 	c.StartRule("R2", "availability-token typestate of the establisher", 8)
 	c.Table("C09.R2 exempt exits: returns on the edge err == ErrClientClosed / put returned nil (client closed: waiters are released by the closed signal, C19.R3), the test-override branch, panics")
 	tokenTypestate(c, est, errClosed, override)
@@ -321,6 +324,7 @@ func runC09(c *kit.Ctx) {
 
 	// ---- R6 ---------------------------------------------------------------
 	c.StartRule("R6", "the establisher's 'should not happen' panics are unreachable", 3)
+	lookupContexts(c)
 	{
 		ire := c.Anchor("", "", "isRegionEstablished")
 		if ire != nil {
@@ -380,6 +384,8 @@ func runC09(c *kit.Ctx) {
 	}
 
 	// ---- R5 ---------------------------------------------------------------
+	embed(c, "R7", "no request is stranded by a failing connection (the rules of C03, run as one rule here)", 30, runC03)
+
 	c.StartRule("R5", "region/cache primitives", 4)
 	failureTransition(c)
 	availF := p.Field("region", "info", "available")
